@@ -85,11 +85,14 @@ StdApply(st0, g, op, a, b) ==
     [] op = "GetMut" ->
          [st EXCEPT !.ret = IF st.strong[a] = 1 /\ st.weak[a] = 1 THEN "some" ELSE "none"]
     \* make_mut on a handle to a; b is the id of the allocation the handle points to afterwards
-    [] op \in {"MakeMut", "MakeMutS"} ->
-         IF st.strong[a] # 1
+    [] op \in {"MakeMut", "MakeMutS", "MakeMutP"} ->
+         IF st.strong[a] # 1 /\ op = "MakeMutP"
+         THEN \* the payload's Clone panics: nothing changes
+              [st EXCEPT !.ret = "cpanic"]
+         ELSE IF st.strong[a] # 1
          THEN \* other strong handles: clone the value into a fresh allocation b
               \* (MakeMutS: the payload's Clone does not re-share the stored handles)
-              LET k  == IF op = "MakeMut" THEN 1 ELSE 0
+              LET k  == IF op # "MakeMutS" THEN 1 ELSE 0
                   s1 == [st EXCEPT !.alive[b] = TRUE, !.strong[b] = 1, !.weak[b] = 1, !.mem[b] = "alloc",
                                    !.strong = [t \in SObj |-> IF t = b THEN 1 ELSE @[t] + k * g.valS[a][t]],
                                    !.weak   = [t \in SObj |-> IF t = b THEN 1 ELSE @[t] + k * g.valW[a][t]]]
